@@ -109,6 +109,8 @@ class P(Prop):
             ("sequential_unroll", lambda: cg.tx.sequential_unroll(c, 2, "d", "q", ["clk"])),
             ("unroll", lambda: cg.tx.unroll(c, 2, st)),
             ("sensitization_transform", lambda: cg.tx.sensitization_transform(c, n, rng.choice([None, outs[:1] or None]))),
+            ("sensitization_transform_cone", lambda: cg.tx.sensitization_transform(
+                c, n, max(c.transitive_fanout(n) | {n}, key=lambda e: (len(c.transitive_fanin(e)), e)))),
             ("sensitivity_transform", lambda: cg.tx.sensitivity_transform(c, n)),
             ("limit_fanin", lambda: cg.tx.limit_fanin(c, 2)), ("limit_fanout", lambda: cg.tx.limit_fanout(c, 2)),
             ("acyclic_unroll", lambda: cg.tx.acyclic_unroll(c)), ("supergates", lambda: cg.tx.supergates(c)),
